@@ -80,6 +80,15 @@ def check_worklist(idx: Index, rep: Report) -> None:
     ok_idx = (store_first and vtxt == "len(self._stack)") or (app_first and vtxt in ("len(self._stack) - 1",))
     if not ok_idx:
         problems.append(("index", f"_map[{item}] is set to `{vtxt}` {'before' if store_first else 'after'} the append; it must be the position at which the item is stored"))
+    # the length read for the index is still the length when the item is appended: nothing changes the stack in between
+    muts_ = [c_ for c_ in calls_in(f.node) if isinstance(c_.func, ast.Attribute) and unparse(c_.func.value) == "self._stack" and c_.func.attr in ("pop", "append", "insert", "extend", "clear", "remove") and c_ is not app]
+    muts_ += [n_ for n_ in walk_local(f.node) if isinstance(n_, ast.Delete) and any(isinstance(t_, ast.Subscript) and unparse(t_.value) == "self._stack" for t_ in n_.targets)]
+    first, second = (n_store, n_app) if store_first else (n_app, n_store)
+    for m_ in muts_:
+        nm_ = cfg.node_of(m_)
+        if nm_ in cfg.reachable(first) and second in cfg.reachable(nm_) and nm_ not in (first, second):
+            problems.append(("index-stale", f"`{unparse(m_)[:50]}` changes the length of the stack between the moment the index of {item} is computed (`{vtxt}`) and the moment {item} is stored: the recorded index is not the position of the item, so a later remove() writes its tombstone over another item (or past the end)"))
+            break
     # paired on every path: no path entry->exit passing exactly one of them
     for a, b, nm in ((n_store, n_app, "append"), (n_app, n_store, "map store")):
         reach_exit_wo = cfg.path_avoiding(a, cfg.exit, lambda n, b=b: n.id == b)
